@@ -356,7 +356,27 @@ class Unroll(object):
             for s in cls.body:
                 if isinstance(s, ast.Assign) and len(s.targets) == 1 and isinstance(s.targets[0], ast.Name) \
                         and s.targets[0].id == e.attr and isinstance(s.value, (ast.Tuple, ast.List)):
-                    d = s.value
+                    # names of the class body used inside a class-level table are attributes of the class
+                    cnames = set()
+                    for b in cls.body:
+                        if isinstance(b, ast.Assign):
+                            for t in b.targets:
+                                if isinstance(t, ast.Name):
+                                    cnames.add(t.id)
+                        elif isinstance(b, ast.FunctionDef):
+                            cnames.add(b.name)
+                    base = e.value.id
+
+                    class Q(ast.NodeTransformer):
+                        def visit_Name(self_, n):
+                            if isinstance(n.ctx, ast.Load) and n.id in cnames:
+                                return ast.copy_location(ast.Attribute(value=ast.Name(id=base, ctx=ast.Load()), attr=n.id,
+                                                                       ctx=ast.Load()), n)
+                            return n
+
+                        def visit_Lambda(self_, n):
+                            return n
+                    d = Q().visit(copy.deepcopy(s.value))
         if d is None or not d.elts or len(d.elts) > 8 or not all(_const_elt(x) for x in d.elts):
             return None
         return d
@@ -1117,6 +1137,14 @@ def _fold_const_tests(stmts, func):
     return out if changed else None
 
 
+def _drop_dead(stmts, func):
+    """Statements after an unconditional return / raise / break / continue of the same block never run."""
+    for i, s in enumerate(stmts[:-1]):
+        if isinstance(s, (ast.Return, ast.Raise, ast.Break, ast.Continue)):
+            return stmts[:i + 1]
+    return None
+
+
 # ---------------------------------------------------------------------------------------------- repeated tests
 def _atom(test):
     neg = False
@@ -1281,6 +1309,7 @@ def simple_passes(modules, log):
                             ('dispatch table turned into an if-chain', lambda b, f_, cls=cls: dd.block(b, f_, cls)),
                             ('tuple assignment split', _tuple_split),
                             ('constant test folded', _fold_const_tests),
+                            ('unreachable statements dropped', _drop_dead),
                             ('repeated test decided', _repeated_tests),
                             ('conditional callee expanded', _callee_ifexp),
                             ('continuation threaded into the tails of a flag-setting statement', _thread),
